@@ -1174,7 +1174,7 @@ impl Prop for C16 {
         run(c, o)
     }
     fn rule() -> &'static str {
-        "proptest: tonic_web::GrpcWebLayer over a scripted inner tower service. Row kind (80% POST+grpc-web translate, 5% grpc-web non-POST, 5% non-grpc-web over HTTP/1.x, 10% non-grpc-web over HTTP/2) x request content-type (4 grpc-web / 6 others incl. absent) x accept (4 grpc-web types) x request gRPC stream (0-4 frames of size 0, 1-16, <=300, <=20KiB, or raw bytes; binary as is, text as ONE padded base64 run) x request chunking (sizes 0,1,2-5,<=100,<=9000 plus targeted cuts inside a frame prefix / inside a base64 quantum) x response stream (0-6 frames, flag 0/1) x response chunking (same, targeted cuts inside prefixes) x trailers (grpc-status, percent-encoded Unicode grpc-message, 0-5 further entries from a small name pool so that names repeat, values with ':' / inner spaces / obs-text / empty, -bin as unpadded base64; or empty map) or trailers-only (12%) x Pending patterns of both bodies and of the inner future x is_end_stream reporting (never / exact with a consumer that stops there / exact with a consumer that drains). Oracle: own table for 405/400/pass-through (identical method, URI, headers, body bytes, status, trailers); inner service sees content-type application/grpc, same URI/metadata and a body whose bytes equal the original gRPC stream, ending cleanly; response content-type matches the accept mode, body (text: per-quantum base64 decode) parses into the original message frames in order then exactly one frame with flag 0x80, last, whose name:value block lists every inner trailer (per name the same ordered values); trailers-only: zero messages and the trailers in the headers or in one trailers frame. Non-trivial: a chunk boundary strictly inside a 5-byte frame prefix (either direction) or inside a base64 quantum of a text request, or >=2 trailers; distinct = distinct serialised case. Bodies that report is_end_stream exactly also report an exact size_hint of the DATA bytes left (0 for a trailers-only body that still has trailers to give)."
+        "proptest: tonic_web::GrpcWebLayer over a scripted inner tower service. Row kind (80% POST+grpc-web translate, 5% grpc-web non-POST, 5% non-grpc-web over HTTP/1.x, 10% non-grpc-web over HTTP/2) x request content-type (4 grpc-web / 6 others incl. absent) x accept (4 grpc-web types) x request gRPC stream (0-4 frames of size 0, 1-16, <=300, <=20KiB, or raw bytes; binary as is, text as ONE padded base64 run) x request chunking (sizes 0,1,2-5,<=100,<=9000 plus targeted cuts inside a frame prefix / inside a base64 quantum) x response stream (0-6 frames, flag 0/1) x response chunking (same, targeted cuts inside prefixes) x trailers (grpc-status, percent-encoded Unicode grpc-message, 0-5 further entries from a small name pool so that names repeat, values with ':' / inner spaces / obs-text / empty, -bin as unpadded base64; or empty map) or trailers-only (12%) x Pending patterns of both bodies and of the inner future x is_end_stream reporting (never / exact with a consumer that stops there / exact with a consumer that drains). Oracle: own table for 405/400/pass-through (identical method, URI, headers, body bytes, status, trailers); inner service sees content-type application/grpc, same URI/metadata and a body whose bytes equal the original gRPC stream, ending cleanly; response content-type matches the accept mode, body (text: per-quantum base64 decode) parses into the original message frames in order then exactly one frame with flag 0x80, last, whose name:value block lists every inner trailer (per name the same ordered values); trailers-only: zero messages and the trailers in the headers or in one trailers frame. Non-trivial: a chunk boundary strictly inside a 5-byte frame prefix (either direction) or inside a base64 quantum of a text request, or >=2 trailers; distinct = distinct serialised case. Bodies that report is_end_stream exactly also report an exact size_hint of the DATA bytes left (0 for a trailers-only body that still has trailers to give). The caller's grpc-accept-encoding (gzip / identity / absent) must reach the inner service unchanged."
     }
     fn assumptions() -> Vec<String> {
         vec![
